@@ -158,3 +158,40 @@ Definition color_of_hex (s : list N) : option rgba :=
       else None
   | _ => None
   end.
+
+(* a decimal number with at most three decimals, as a count of thousandths:  -?digits(.d|.dd|.ddd)?  *)
+Definition digit_val (ch : N) : option Z := if is_digit ch then Some (Z.of_N (ch - 48)) else None.
+Local Open Scope Z_scope.
+Definition read_frac (ds : list N) : option Z :=
+  match ds with
+  | [a] => match digit_val a with Some x => Some (100 * x) | None => None end
+  | [a; b] => match digit_val a, digit_val b with Some x, Some y => Some (100 * x + 10 * y) | _, _ => None end
+  | [a; b; c] =>
+      match digit_val a, digit_val b, digit_val c with
+      | Some x, Some y, Some z => Some (100 * x + 10 * y + z)
+      | _, _, _ => None
+      end
+  | _ => None
+  end.
+Definition read_unsigned (s : list N) : option Z :=
+  match s with
+  | [] => None
+  | ch :: _ =>
+      if is_digit ch then
+        let '(ip, rest) := take_num s in
+        match rest with
+        | [] => Some (1000 * Z.of_N ip)
+        | dot :: ds =>
+            if (dot =? 46)%N then
+              match read_frac ds with Some f => Some (1000 * Z.of_N ip + f) | None => None end
+            else None
+        end
+      else None
+  end.
+Definition read_fx (s : list N) : option Z :=
+  match s with
+  | [] => None
+  | ch :: t =>
+      if (ch =? 45)%N then match read_unsigned t with Some x => Some (- x) | None => None end
+      else read_unsigned s
+  end.
